@@ -1,12 +1,19 @@
 #!/bin/bash
-# Offline setup: build the Lean project (models, proofs, driver) and pyunicorn
-# from /repo's working tree into /verif/.build.
-set -e
+# Offline setup: build the Lean project (models, proofs, drivers) and pyunicorn
+# from /repo's working tree into /verif/.build.  Non-fatal on partial failure:
+# each check rebuilds what it needs and reports precisely.
 cd "$(dirname "$0")"
-(cd lean && lake build 2>&1 | tail -5)
+python3 tools/gen_lake.py
+for spec in translate/arith_C*.json; do
+  [ -f "$spec" ] || continue
+  id=$(basename "$spec" .json); id=${id#arith_}
+  python3 translate/gen_arith.py "$spec" "lean/Pyunicorn/Generated/Arith${id}.lean" || true
+done
+(cd lean && lake build Pyunicorn $(ls Drivers/*.lean | sed 's#Drivers/\(.*\)\.lean#drv_\L\1#') 2>&1 | tail -5) || true
 /venv/bin/python - <<'PY'
 import sys, os
 sys.path.insert(0, os.getcwd())
 from harness import common
 print("pyunicorn build:", common.ensure_build())
 PY
+exit 0
